@@ -242,7 +242,11 @@ def _repo_checks(L, fails, subset=None, notenc=None):
                 fails.append('%s.%s aborted in the shim: %r' % (mod, fn, e))
             continue
         except core.PathAbort as e:
-            fails.append('%s.%s aborted in the shim: %r' % (mod, fn, e))
+            # division by a concrete zero, step limit, ...: outcomes the driver classifies per path (domain / steplimit); not a translator fault
+            if notenc is not None:
+                notenc.append('%s.%s: %r' % (mod, fn, e))
+            else:
+                fails.append('%s.%s aborted in the shim: %r' % (mod, fn, e))
             continue
         except Exception as e:
             got, gexc = None, type(e).__name__
